@@ -355,6 +355,8 @@ def cbmc_cmd(u, inst, extra=()):
     if uws: cmd += ['--unwindset', ','.join('%s:%d' % kv for kv in sorted(uws.items()))]
     cmd += ['--object-bits', str(inst.objbits or 11)]
     if inst.leak: cmd += ['--memory-leak-check']
+    if '--sat-solver' not in inst.flags and '--external-sat-solver' not in inst.flags:
+        cmd += ['--sat-solver', 'cadical']   # measured: arithmetic equivalence queries MiniSat does not finish in 200 s take 4 s
     cmd += list(inst.flags) + list(extra)
     return cmd
 
